@@ -37,6 +37,7 @@ type Exec struct {
 	rangeKey   map[string]Term
 	final      *State
 	entry0     *State
+	autoDec    func(*State) Term
 	paramVals  []Value
 	recvVal    Value
 }
